@@ -1,8 +1,369 @@
-(** C17 proofs (placeholder, filled below). *)
+(** C17 proofs, part 1: the weighted semaphore, the accounting invariant of the
+    Semaphore/LimitListener transition system and its preservation by every step. *)
 From EG.lib Require Import Base.
 From EG.model Require Import Sem.
+From Coq Require Import ZifyBool.
 Open Scope Z_scope.
 
-Lemma sem_accounting_init : forall sz n, 0 <= n -> 0 < sz ->
-  cur (ws (linit ideal sz n)) = sz - real (linit ideal sz n).
-Proof. intros; reflexivity. Qed.
+(** ** bookkeeping functions *)
+
+
+Lemma count_who_cons x w l :
+  count_who x (w :: l) = if who_eqb (fst w) x then count_who x l + 1 else count_who x l.
+Proof. reflexivity. Qed.
+Lemma qshr_cons w l : qshr (w :: l) = match fst w with WAdj => qshr l + snd w | WAcc => qshr l end.
+Proof. reflexivity. Qed.
+Lemma zsum_cons x l : zsum (x :: l) = x + zsum l.
+Proof. reflexivity. Qed.
+Lemma wsum_cons w l : wsum (w :: l) = snd w + wsum l.
+Proof. reflexivity. Qed.
+Lemma count_who_nil x : count_who x [] = 0. Proof. reflexivity. Qed.
+Lemma qshr_nil : qshr [] = 0. Proof. reflexivity. Qed.
+Lemma zsum_nil : zsum [] = 0. Proof. reflexivity. Qed.
+Lemma wsum_nil : wsum [] = 0. Proof. reflexivity. Qed.
+
+Lemma count_who_app x a b : count_who x (a ++ b) = count_who x a + count_who x b.
+Proof.
+  induction a as [|w a IH]; [rewrite count_who_nil; reflexivity|].
+  rewrite <- app_comm_cons, !count_who_cons, IH. destruct (who_eqb (fst w) x); lia.
+Qed.
+
+Lemma qshr_app a b : qshr (a ++ b) = qshr a + qshr b.
+Proof.
+  induction a as [|w a IH]; [rewrite qshr_nil; reflexivity|].
+  rewrite <- app_comm_cons, !qshr_cons, IH. destruct (fst w); lia.
+Qed.
+
+Lemma count_who_nonneg x l : 0 <= count_who x l.
+Proof.
+  induction l as [|w l IH]; [rewrite count_who_nil; lia|].
+  rewrite count_who_cons. destruct (who_eqb (fst w) x); lia.
+Qed.
+
+Lemma zsum_app a b : zsum (a ++ b) = zsum a + zsum b.
+Proof.
+  induction a as [|x a IH]; [rewrite zsum_nil; reflexivity|].
+  rewrite <- app_comm_cons, !zsum_cons, IH. lia.
+Qed.
+
+Lemma zsum_remove_nth : forall i l d, nth_error l i = Some d -> zsum (remove_nth i l) = zsum l - d.
+Proof.
+  induction i as [|i IH]; intros [|x l] d H; cbn in H; try discriminate.
+  - inversion H; subst. cbn [remove_nth]. rewrite zsum_cons. lia.
+  - cbn [remove_nth]. rewrite !zsum_cons, (IH _ _ H). lia.
+Qed.
+
+Lemma Forall_remove_nth {A} (P : A -> Prop) : forall i l, Forall P l -> Forall P (remove_nth i l).
+Proof.
+  induction i as [|i IH]; intros [|x l] H; cbn [remove_nth]; auto.
+  - inversion H; auto.
+  - inversion H; subst. constructor; auto.
+Qed.
+
+Lemma nth_error_Forall {A} (P : A -> Prop) : forall i l d, Forall P l -> nth_error l i = Some d -> P d.
+Proof.
+  induction i as [|i IH]; intros [|x l] d H E; cbn in E; try discriminate; inversion H; subst.
+  - inversion E; subst; auto.
+  - eauto.
+Qed.
+
+(** ** well-formed queues *)
+
+Definition waiter_ok (sz : Z) (w : waiter) : Prop :=
+  match fst w with WAcc => snd w = 1 | WAdj => 0 < snd w <= sz end.
+
+Definition wq_ok (sz : Z) (q : list waiter) : Prop := Forall (waiter_ok sz) q.
+
+Definition head_blocked (sz c : Z) (q : list waiter) : Prop :=
+  match q with [] => True | w :: _ => sz - c < snd w end.
+
+Lemma wsum_split sz q : wq_ok sz q -> wsum q = count_who WAcc q + qshr q.
+Proof.
+  induction 1 as [|w q Hw _ IH]; [reflexivity|].
+  rewrite wsum_cons, count_who_cons, qshr_cons.
+  unfold waiter_ok in Hw. destruct w as [x n]; cbn [fst snd] in *. destruct x; cbn [who_eqb]; lia.
+Qed.
+
+Lemma qshr_nonneg sz q : wq_ok sz q -> 0 <= qshr q.
+Proof.
+  induction 1 as [|w q Hw _ IH]; [rewrite qshr_nil; lia|]. rewrite qshr_cons.
+  unfold waiter_ok in Hw. destruct (fst w); lia.
+Qed.
+
+Lemma count_adj_zero_qshr sz q : wq_ok sz q -> count_who WAdj q = 0 -> qshr q = 0.
+Proof.
+  induction 1 as [|w q Hw _ IH]; [reflexivity|].
+  rewrite count_who_cons, qshr_cons. intro E.
+  pose proof (count_who_nonneg WAdj q). destruct (fst w); cbn [who_eqb] in *; lia.
+Qed.
+
+(** ** notifyWaiters *)
+
+Lemma notify_spec : forall q sz c c' wk rest,
+  notify sz c q = (c', wk, rest) ->
+  q = wk ++ rest /\ c' = c + wsum wk /\ head_blocked sz c' rest /\ (c <= sz -> c' <= sz).
+Proof.
+  induction q as [|[x n] t IH]; intros sz c c' wk rest H; cbn [notify] in H.
+  - inversion H; subst. rewrite wsum_nil. cbn [app head_blocked]. repeat split; lia.
+  - destruct (sz - c <? n) eqn:E.
+    + inversion H; subst. rewrite wsum_nil. cbn [app head_blocked snd]. repeat split; lia.
+    + destruct (notify sz (c + n) t) as [[c1 wk1] r1] eqn:N. inversion H; subst.
+      destruct (IH _ _ _ _ _ N) as (Hq & Hc & Hh & Hle).
+      rewrite wsum_cons. cbn [app snd]. repeat split.
+      * now rewrite Hq.
+      * lia.
+      * exact Hh.
+      * intros _. apply Hle. lia.
+Qed.
+
+(** everything that is woken fits into the free room *)
+Lemma notify_room : forall q sz c c' wk rest,
+  notify sz c q = (c', wk, rest) -> c <= sz -> wsum wk <= sz - c.
+Proof.
+  intros q sz c c' wk rest H Hc. destruct (notify_spec _ _ _ _ _ _ H) as (_ & Hc' & _ & Hle). lia.
+Qed.
+
+Lemma wq_ok_app sz a b : wq_ok sz (a ++ b) <-> wq_ok sz a /\ wq_ok sz b.
+Proof. unfold wq_ok. apply Forall_app. Qed.
+
+(** ** the invariant *)
+
+
+Record Inv (s : lstate) : Prop := {
+  i_size : 0 < size (ws s);
+  i_crash : crashed s = false;
+  i_pan : panics s = 0;
+  i_doom : doomed s = 0;
+  i_real : 0 <= real s <= size (ws s);
+  i_held : 0 <= held s;
+  i_acct : cur (ws s) = size (ws s) - applied_cap s + held s + olen s;
+  i_cap : applied_cap s <= size (ws s);
+  i_cur : cur (ws s) <= size (ws s);
+  i_wq : wq_ok (size (ws s)) (wq (ws s));
+  i_head : head_blocked (size (ws s)) (cur (ws s)) (wq (ws s));
+  i_pend : Forall (fun d => - size (ws s) <= d <= size (ws s)) (pend s);
+  i_nodup : NoDup (opened s);
+  i_disj : forall c, In c (opened s) -> ~ In c (closed s)
+}.
+
+Lemma olen_nonneg s : 0 <= olen s.
+Proof. unfold olen. lia. Qed.
+
+Lemma inv_cur_nonneg s : Inv s -> 0 <= cur (ws s).
+Proof. intros I. pose proof (i_acct s I). pose proof (i_cap s I). pose proof (i_held s I). pose proof (olen_nonneg s). lia. Qed.
+
+Lemma inv_init sz n : 0 < sz -> 0 <= n -> Inv (linit ideal sz n).
+Proof.
+  intros Hs Hn. unfold linit. cbn [q_newsem_unclamped ideal].
+  constructor; cbn [ws size cur wq real pend held opened closed ndone doomed panics crashed];
+    unfold applied_cap, olen, wq_ok, head_blocked;
+    cbn [ws size cur wq real pend held opened closed zsum qshr fold_right List.length];
+    try lia; auto; try constructor.
+Qed.
+
+(** ** Release from a caller's thread, under the accounting of the state it leaves *)
+
+Lemma l_release_inv s0 n :
+  0 < size (ws s0) -> crashed s0 = false -> panics s0 = 0 -> doomed s0 = 0 ->
+  0 <= real s0 <= size (ws s0) -> 0 <= held s0 -> 0 <= n ->
+  cur (ws s0) - n = size (ws s0) - applied_cap s0 + held s0 + olen s0 ->
+  applied_cap s0 <= size (ws s0) -> cur (ws s0) <= size (ws s0) ->
+  wq_ok (size (ws s0)) (wq (ws s0)) ->
+  Forall (fun d => - size (ws s0) <= d <= size (ws s0)) (pend s0) ->
+  NoDup (opened s0) -> (forall c, In c (opened s0) -> ~ In c (closed s0)) ->
+  Inv (l_release s0 n).
+Proof.
+  intros Hsz Hcr Hpa Hdo Hre Hhe Hn Hacct Hcap Hcur Hwq Hpe Hnd Hdj.
+  unfold l_release.
+  pose proof (olen_nonneg s0) as Hol.
+  destruct (cur (ws s0) - n <? 0) eqn:E; [lia|].
+  destruct (notify (size (ws s0)) (cur (ws s0) - n) (wq (ws s0))) as [[c' wk] rest] eqn:N.
+  destruct (notify_spec _ _ _ _ _ _ N) as (Hq & Hc' & Hh & Hle).
+  rewrite Hq in Hwq. apply wq_ok_app in Hwq as [Hwk Hrest].
+  pose proof (wsum_split _ _ Hwk) as Hws.
+  pose proof (count_who_nonneg WAcc wk) as Hca.
+  assert (Happ : applied_cap s0 = real s0 - zsum (pend s0) + qshr wk + qshr rest).
+  { unfold applied_cap. rewrite Hq, qshr_app. lia. }
+  pose proof (qshr_nonneg _ _ Hwk) as Hqk.
+  unfold wake, set_ws.
+  constructor; cbn [ws size cur wq real pend held opened closed ndone doomed panics crashed];
+    unfold applied_cap, olen in *;
+    cbn [ws size cur wq real pend held opened closed ndone doomed panics crashed] in *;
+    auto; try lia.
+Qed.
+
+(** [remove_N] on duplicate-free lists *)
+Lemma mem_N_In x l : mem_N x l = true <-> In x l.
+Proof.
+  unfold mem_N. rewrite existsb_exists. split.
+  - intros (y & Hy & E). apply N.eqb_eq in E. now subst.
+  - intros H. exists x. split; [auto | apply N.eqb_refl].
+Qed.
+
+Lemma In_remove_N x c l : In x (remove_N c l) <-> In x l /\ x <> c.
+Proof.
+  unfold remove_N. rewrite filter_In. split.
+  - intros [H E]. split; auto. intros ->. rewrite N.eqb_refl in E. discriminate.
+  - intros [H E]. split; auto. destruct (N.eqb c x) eqn:F; auto. apply N.eqb_eq in F. congruence.
+Qed.
+
+Lemma NoDup_remove_N c l : NoDup l -> NoDup (remove_N c l).
+Proof. intros H. unfold remove_N. now apply NoDup_filter. Qed.
+
+Lemma remove_N_notin c l : ~ In c l -> remove_N c l = l.
+Proof.
+  induction l as [|y l IH]; intros H; [reflexivity|]. cbn [remove_N filter].
+  destruct (N.eqb c y) eqn:E.
+  - apply N.eqb_eq in E. subst. exfalso. apply H. now left.
+  - cbn [negb]. fold (remove_N c l). rewrite IH; auto. intro. apply H. now right.
+Qed.
+
+Lemma length_remove_N c l : NoDup l -> In c l ->
+  Z.of_nat (List.length (remove_N c l)) = Z.of_nat (List.length l) - 1.
+Proof.
+  induction l as [|y l IH]; intros Hnd Hin; [inversion Hin|].
+  inversion Hnd as [|? ? Hny Hnd']; subst. cbn [remove_N filter].
+  destruct (N.eqb c y) eqn:E.
+  - apply N.eqb_eq in E. subst y. cbn [negb].
+    fold (remove_N c l). rewrite (remove_N_notin _ _ Hny). cbn [List.length]. lia.
+  - cbn [negb List.length]. fold (remove_N c l).
+    destruct Hin as [->|Hin]; [rewrite N.eqb_refl in E; discriminate|].
+    rewrite Nat2Z.inj_succ, (IH Hnd' Hin). cbn [List.length]. lia.
+Qed.
+
+(** ** every step preserves the invariant *)
+
+Lemma size_l_release s n : size (ws (l_release s n)) = size (ws s).
+Proof.
+  unfold l_release. destruct (cur (ws s) - n <? 0); [reflexivity|].
+  destruct (notify _ _ _) as [[c' wk] rest]. reflexivity.
+Qed.
+
+Lemma acquire_cases (w : wsem) x n :
+  (w_acquire w x n = ({| size := size w; cur := cur w + n; wq := wq w |}, Acquired)
+     /\ n <= size w - cur w /\ wq w = []) \/
+  (w_acquire w x n = (w, Doomed) /\ size w < n /\ (size w - cur w < n \/ wq w <> [])) \/
+  (w_acquire w x n = ({| size := size w; cur := cur w; wq := wq w ++ [(x, n)] |}, Queued)
+     /\ n <= size w /\ (size w - cur w < n \/ wq w <> [])).
+Proof.
+  unfold w_acquire. destruct (n <=? size w - cur w) eqn:E1; cbn [andb].
+  - destruct (wq w) eqn:Q; cbn [is_nil].
+    + left. repeat split; auto. lia.
+    + destruct (size w <? n) eqn:E2; [right; left | right; right]; repeat split; auto; try lia;
+        right; discriminate.
+  - destruct (size w <? n) eqn:E2; [right; left | right; right]; repeat split; auto; lia.
+Qed.
+
+Lemma head_blocked_snoc sz c q w :
+  head_blocked sz c q -> (sz - c < snd w \/ q <> []) -> head_blocked sz c (q ++ [w]).
+Proof.
+  destruct q as [|h t]; cbn [app head_blocked]; intros H [E|E]; auto; congruence.
+Qed.
+
+Lemma inv_step s l : Inv s -> label_ok l -> Inv (lstep ideal s l).
+Proof.
+  intros I Hl. unfold lstep. rewrite (i_crash s I).
+  pose proof (olen_nonneg s) as Hol.
+  destruct I as [Hsz Hcr Hpa Hdo Hre Hhe Hacct Hcap Hcur Hwq Hhd Hpe Hnd Hdj].
+  destruct l as [ | c | | c | n | i].
+  - (* LAcquire *)
+    destruct (acquire_cases (ws s) WAcc 1) as [(E & H1 & H2) | [(E & H1 & H2) | (E & H1 & H2)]]; rewrite E.
+    + constructor; cbn [ws size cur wq real pend held opened closed ndone doomed panics crashed];
+        unfold applied_cap, olen in *;
+        cbn [ws size cur wq real pend held opened closed ndone doomed panics crashed] in *;
+        rewrite ?H2 in *; auto; try lia; try (cbn; auto; fail).
+    + lia.
+    + unfold set_ws.
+      constructor; cbn [ws size cur wq real pend held opened closed ndone doomed panics crashed];
+        unfold applied_cap, olen in *;
+        cbn [ws size cur wq real pend held opened closed ndone doomed panics crashed] in *;
+        rewrite ?qshr_app; cbn [qshr fold_right fst snd]; auto; try lia.
+      * apply wq_ok_app. split; auto. constructor; [|constructor]. unfold waiter_ok. cbn. reflexivity.
+      * apply head_blocked_snoc; auto.
+  - (* LGot *)
+    destruct ((0 <? held s) && negb (mem_N c (opened s)) && negb (mem_N c (closed s))) eqn:G.
+    + apply andb_true_iff in G as [G G3]. apply andb_true_iff in G as [G1 G2].
+      apply negb_true_iff in G2, G3.
+      assert (N2 : ~ In c (opened s)) by (rewrite <- mem_N_In; congruence).
+      assert (N3 : ~ In c (closed s)) by (rewrite <- mem_N_In; congruence).
+      constructor; cbn [ws size cur wq real pend held opened closed ndone doomed panics crashed];
+        unfold applied_cap, olen in *;
+        cbn [ws size cur wq real pend held opened closed ndone doomed panics crashed List.length] in *;
+        auto; try lia.
+      * constructor; auto.
+      * intros c' [->|Hc']; auto.
+    + constructor; auto.
+  - (* LFail *)
+    destruct (0 <? held s) eqn:G; [|constructor; auto].
+    apply l_release_inv; cbn [ws size cur wq real pend held opened closed ndone doomed panics crashed];
+      unfold applied_cap, olen in *;
+      cbn [ws size cur wq real pend held opened closed ndone doomed panics crashed] in *; auto; lia.
+  - (* LClose *)
+    destruct (mem_N c (opened s)) eqn:G; [|constructor; auto].
+    apply mem_N_In in G. pose proof (length_remove_N c _ Hnd G) as HL.
+    apply l_release_inv; cbn [ws size cur wq real pend held opened closed ndone doomed panics crashed];
+      unfold applied_cap, olen in *;
+      cbn [ws size cur wq real pend held opened closed ndone doomed panics crashed] in *; auto; try lia.
+    + now apply NoDup_remove_N.
+    + intros c' Hc' [->|Hin].
+      * apply In_remove_N in Hc'. tauto.
+      * apply In_remove_N in Hc' as [Hc' _]. exact (Hdj _ Hc' Hin).
+  - (* LSetMax *)
+    cbn [label_ok] in Hl.
+    constructor; cbn [ws size cur wq real pend held opened closed ndone doomed panics crashed];
+      unfold applied_cap, olen in *;
+      cbn [ws size cur wq real pend held opened closed ndone doomed panics crashed] in *;
+      rewrite ?zsum_app; cbn [zsum fold_right]; auto; try lia.
+    apply Forall_app. split; auto. constructor; [lia|constructor].
+  - (* LRun *)
+    destruct (nth_error (pend s) i) as [d|] eqn:Ei; [|constructor; auto].
+    pose proof (zsum_remove_nth _ _ _ Ei) as Hz.
+    pose proof (nth_error_Forall _ _ _ _ Hpe Ei) as Hd. cbn beta in Hd.
+    pose proof (Forall_remove_nth _ i _ Hpe) as Hpe'.
+    cbn [q_grow_release_unchecked ideal].
+    destruct (0 <? d) eqn:Dp.
+    + (* grow, guarded by the pool *)
+      destruct (pool s <? d) eqn:Pg; [constructor; auto|].
+      unfold pool in Pg.
+      assert (IR : Inv (l_release (set_pend s (remove_nth i (pend s))) d)).
+      { apply l_release_inv; unfold set_pend;
+          cbn [ws size cur wq real pend held opened closed ndone doomed panics crashed];
+          unfold applied_cap, olen in *;
+          cbn [ws size cur wq real pend held opened closed ndone doomed panics crashed] in *; auto; lia. }
+      destruct IR. constructor; cbn [ws size cur wq real pend held opened closed ndone doomed panics crashed];
+        unfold applied_cap, olen in *;
+        cbn [ws size cur wq real pend held opened closed ndone doomed panics crashed] in *; auto.
+    + destruct (d <? 0) eqn:Dn.
+      * (* shrink *)
+        unfold set_pend at 1. cbn [ws].
+        destruct (acquire_cases (ws s) WAdj (- d)) as [(E & H1 & H2) | [(E & H1 & H2) | (E & H1 & H2)]]; rewrite E.
+        -- constructor; unfold set_pend;
+             cbn [ws size cur wq real pend held opened closed ndone doomed panics crashed];
+             unfold applied_cap, olen in *;
+             cbn [ws size cur wq real pend held opened closed ndone doomed panics crashed] in *;
+             rewrite ?H2 in *; auto; try lia; try (cbn; auto; fail).
+        -- lia.
+        -- unfold set_ws, set_pend.
+           constructor; cbn [ws size cur wq real pend held opened closed ndone doomed panics crashed];
+             unfold applied_cap, olen in *;
+             cbn [ws size cur wq real pend held opened closed ndone doomed panics crashed] in *;
+             rewrite ?qshr_app; cbn [qshr fold_right fst snd]; auto; try lia.
+           ++ apply wq_ok_app. split; auto. constructor; [|constructor]. unfold waiter_ok. cbn. lia.
+           ++ apply head_blocked_snoc; auto.
+      * (* zero delta *)
+        assert (d = 0) by lia. subst d.
+        constructor; unfold set_pend;
+          cbn [ws size cur wq real pend held opened closed ndone doomed panics crashed];
+          unfold applied_cap, olen in *;
+          cbn [ws size cur wq real pend held opened closed ndone doomed panics crashed] in *; auto; lia.
+Qed.
+
+Lemma inv_run : forall ls s, Inv s -> Forall label_ok ls -> Inv (lrun ideal s ls).
+Proof.
+  induction ls as [|l ls IH]; intros s I H; cbn [lrun fold_left]; auto.
+  inversion H; subst. apply IH; auto. now apply inv_step.
+Qed.
+
+Theorem reachable_inv sz n ls :
+  0 < sz -> 0 <= n -> Forall label_ok ls -> Inv (lrun ideal (linit ideal sz n) ls).
+Proof. intros. apply inv_run; auto. now apply inv_init. Qed.
